@@ -10,13 +10,27 @@ import (
 	"github.com/jsightapi/jsight-api-go-library/notation"
 )
 
+// unescapeParameter removes the quotes of a quoted parameter and the backslashes
+// which escape a quote or a backslash in it. It is done in one pass: the result
+// of an unescaping is never unescaped again.
 func unescapeParameter(b bytes.Bytes) bytes.Bytes {
-	c := b.Unquote()
-	if len(c) != 0 && len(c) != len(b) {
-		c = stdBytes.ReplaceAll(c, []byte(`\"`), []byte(`"`))
-		c = stdBytes.ReplaceAll(c, []byte(`\\`), []byte(`\`))
+	if len(b) < 2 || b[0] != '"' || b[len(b)-1] != '"' {
+		return b
 	}
-	return c
+
+	in := b[1 : len(b)-1]
+	if stdBytes.IndexByte(in, '\\') == -1 {
+		return in
+	}
+
+	out := make(bytes.Bytes, 0, len(in))
+	for i := 0; i < len(in); i++ {
+		if in[i] == '\\' && i+1 < len(in) && (in[i+1] == '\\' || in[i+1] == '"') {
+			i++
+		}
+		out = append(out, in[i])
+	}
+	return out
 }
 
 func IsArrayOfTypes(b bytes.Bytes) bool {
